@@ -10,6 +10,7 @@ import Ivg.Gen.Tie.Code.Transform
 import Ivg.Gen.Tie.Code.RenderRegs
 import Ivg.Gen.Tie.Code.Logger
 import Ivg.Gen.Tie.Code.Retarget
+import Ivg.Gen.Tie.Code.Paint
 import Ivg.Obligations
 /-!
 # C05 — drawing operations reach the rasteriser as the right segments, affinely mapped
@@ -669,4 +670,7 @@ end Ivg.Props.C05
   -- regenerated code (translator): SetRasterizer recomputes the transform from the current viewBox and the new rectangle
   Ivg.Gen.Tie.rectangle_Empty_code_tie,
   Ivg.Gen.Tie.renderer_SetRasterizer_code_tie,
-  Ivg.Gen.Tie.renderer_SetRasterizer_code_tie_frame]
+  Ivg.Gen.Tie.renderer_SetRasterizer_code_tie_frame,
+  -- regenerated code (translator): StartPath (paint choice, LOD test, gradient initialisation, Reset+MoveTo) and ClosePathEndPath (one Draw over the target rectangle, source point (0,0))
+  Ivg.Gen.Tie.closePathEndPath_code_tie,
+  Ivg.Gen.Tie.startPath_code_tie]
